@@ -126,5 +126,5 @@ package db
 //@ func ReturnErrNotFound (err)
 //@   props C09 C11 C12 C15
 //@   modifies nothing
-//@   ensures[no-rows-becomes-not-found] isErr(err, sql.ErrNoRows) ==> result == ErrNotFound
+//@   ensures[no-rows-becomes-not-found] isErr(err, sql.ErrNoRows) ==> isErr(result, ErrNotFound)
 //@   ensures[everything-else-is-passed-through] !isErr(err, sql.ErrNoRows) ==> result == err
